@@ -43,6 +43,7 @@ PATH_RULES = {
     "P-ADJ1": "incidence entries are appended only on the fresh path, in a loop over the key's nodes, with the edge id",
     "P-ACCUM": "weights of existing records are only changed by `+= weight` under the weighted flag",
     "P-DEL": "deleting a record deletes it from every id-keyed table and from the incidence lists of its nodes on every path",
+    "P-DELJOINT": "a method that deletes a record from an id-keyed table itself (not through remove_edge) deletes it from every id-keyed table, the key table and the incidence lists on that path",
     "P-NODE": "add_node initialises all node tables under the `is new` guard and never overwrites non-empty metadata; remove_node deletes the node from all node tables and goes through remove_edge",
     "P-CLEAR": "clear() empties every table of the class",
     "P-ATOMIC": "no table / flag write precedes an explicit raise in the same method",
@@ -54,6 +55,7 @@ PATH_RULES = {
     "E-PURE": "query methods (everything that is not a declared mutator) never modify self, directly or through callees / lent references",
     "E-SHARED": "no single mutable object becomes the value of several table entries (dict.fromkeys(keys, {}), [{}] * n)",
     "E-FRESHCOPY": "copy() is copy.deepcopy(self)",
+    "B-SCANBREAK": "a scan that collects the records matching a filter stops early only on the sort key, never on the order/size filter",
     "M-UPTO": "size filters are `==` on the exact branch and `<=` on the up_to branch",
     "M-EXCL": "the order/size exclusion guard raises exactly when both are given",
     "M-NONE": "order / size are tested with `is None`, never by truthiness (0 is a legitimate order)",
@@ -120,6 +122,8 @@ def run_container(ctx, prop: str, cls: str) -> Result:
         RC.check_atomic(ctx, res, cls, MUTATORS_ATOMIC)
     with res.guard("RC.check_neighborsctx, res, cls"):
         RC.check_neighbors(ctx, res, cls)
+    with res.guard("RC.check_record_deletion_joint(ctx, res, cls)"):
+        RC.check_record_deletion_joint(ctx, res, cls)
     with res.guard("RC.check_isolation(ctx, res, cls)"):
         RC.check_isolation(ctx, res, cls)
     with res.guard("RC.check_record_creation_guardedctx, res, cls"):
@@ -161,6 +165,10 @@ def run_container(ctx, prop: str, cls: str) -> Result:
                 M.check_none_tests(ctx, res, d)
             with res.guard("F.check_usectx, res, d, order, size, up_to"):
                 F.check_use(ctx, res, d, ("order", "size", "up_to"))
+            with res.guard("B-SCANBREAK"):
+                from ..lints import check_scan_break
+
+                check_scan_break(ctx, res, d)
     wrappers = [f"{cls}.{n}" for n in ctx.methods(cls) if n not in RAW_SETTERS]
     with res.guard("F.check_forwardingctx, res, wrappers"):
         F.check_forwarding(ctx, res, wrappers)
